@@ -271,3 +271,83 @@ func init() {
 		fmt.Printf("%d copy obligations, %d failed\n", n, bad)
 	}
 }
+
+func init() {
+	extraCmds["averify"] = func(args []string) {
+		fs := flag.NewFlagSet("averify", flag.ExitOnError)
+		repo := fs.String("repo", "/repo", "repository root")
+		filt := fs.String("f", "", "regexp on function key")
+		timeout := fs.Int("t", 5, "solver timeout")
+		verbose := fs.Bool("v", false, "print every obligation")
+		_ = fs.Parse(args)
+		prog, err := LoadProgram(*repo, "./...")
+		if err != nil {
+			fmt.Fprintln(os.Stderr, err)
+			os.Exit(2)
+		}
+		fp, err := LoadFrameProg(*repo)
+		if err != nil {
+			fmt.Fprintln(os.Stderr, err)
+			os.Exit(2)
+		}
+		var re *regexp.Regexp
+		if *filt != "" {
+			re = regexp.MustCompile(*filt)
+		}
+		var results []*bResult
+		var all []*Obligation
+		for _, k := range prog.AOrder {
+			if re != nil && !re.MatchString(k) {
+				continue
+			}
+			c := prog.AContracts[k]
+			if c.Trusted {
+				continue
+			}
+			r := VerifyAbstract(prog, fp, k)
+			results = append(results, r)
+			all = append(all, r.Obls...)
+		}
+		DischargeAll(all, *timeout)
+		bad := 0
+		for _, r := range results {
+			ok, n := 0, 0
+			for _, o := range r.Obls {
+				if o.Kind == "vacuity" {
+					if o.Status == "unsat" {
+						fmt.Printf("    VACUOUS %s\n", o.Name)
+						bad++
+					}
+					continue
+				}
+				n++
+				if o.Status == "unsat" {
+					ok++
+				}
+			}
+			status := "ok"
+			if r.Err != "" {
+				status = "ERROR " + r.Err
+				bad++
+			} else if ok != n {
+				status = "FAILED"
+				bad++
+			}
+			fmt.Printf("%-55s %3d/%3d paths=%d %s\n", r.Name, ok, n, r.Paths, status)
+			if *verbose {
+				fmt.Printf("    inlined: %s\n    notes: %s\n    ended: %v\n", strings.Join(r.Inlined, ", "), strings.Join(r.Notes, "; "), r.Ended)
+			}
+			for _, o := range r.Obls {
+				if o.Kind != "vacuity" && (*verbose || o.Status != "unsat") {
+					fmt.Printf("    %-60s %-8s %-7s %.2fs %s\n", o.Name, o.Status, o.Solver, o.Seconds, o.File)
+					if o.Status != "unsat" {
+						fmt.Printf("        goal: %s\n", trunc(o.Goal.Key(), 400))
+					}
+				}
+			}
+		}
+		if bad > 0 {
+			os.Exit(1)
+		}
+	}
+}
